@@ -23,6 +23,7 @@ var lossyString = map[string]bool{"ToLower": true, "ToUpper": true, "Title": tru
 // to the same key is answered with what was computed for the other client's input.
 func c03MemoKeyExact(c *Ctx) {
 	const rule = "shared-memo-key-exact"
+	c.Explanation += " Entries kept in maps of the shared service object are not stored under a many-to-one function of an input their value is computed from."
 	p := c.P
 	svcT := map[*types.Named]bool{}
 	for _, s := range Services(c) {
@@ -46,9 +47,13 @@ func c03MemoKeyExact(c *Ctx) {
 		return false
 	}
 	// inputs(v): the non-receiver parameters (and free variables) v is computed from, through calls' arguments
-	inputs := func(fn *ssa.Function, v ssa.Value) map[ssa.Value]bool {
+	inputs := func(fn *ssa.Function, v ssa.Value, stopAt ...ssa.Value) map[ssa.Value]bool {
 		out := map[ssa.Value]bool{}
 		seen := map[ssa.Value]bool{}
+		// what is computed from the folded key itself is determined by the key
+		for _, sa := range stopAt {
+			seen[sa] = true
+		}
 		var rec func(v ssa.Value, d int)
 		rec = func(v ssa.Value, d int) {
 			if v == nil || seen[v] || d > 12 {
@@ -160,7 +165,7 @@ func c03MemoKeyExact(c *Ctx) {
 				// the value must not be computed from what the key folded
 				xin := inputs(fn, x)
 				xin[x] = true
-				vin := inputs(fn, mu.Value)
+				vin := inputs(fn, mu.Value, mu.Key, Unwrap(mu.Key))
 				var shared []string
 				for v := range vin {
 					if xin[v] {
